@@ -58,6 +58,12 @@ func OpenMachine(dir, resultDir, mnemonic string, password []byte, setSeed bool)
 	m.SetEncryptionKey(append([]byte(nil), password...))
 	am := &Machine{M: m, Dir: dir, ResultDir: resultDir, Password: password, Mnemonic: mnemonic}
 	if setSeed {
+		// the console's order: the password prompt runs InitKeys (a fresh database gets a key pair right away), only then
+		// can the operator type set_seed, which derives and saves the key pair a second time
+		if err := m.InitKeys(); err != nil {
+			_ = m.VerifClose()
+			return nil, fmt.Errorf("InitKeys: %w", err)
+		}
 		if err := m.SetBaseSeed(mnemonic); err != nil {
 			_ = m.VerifClose()
 			return nil, fmt.Errorf("SetBaseSeed: %w", err)
